@@ -1,29 +1,67 @@
 #!/usr/bin/env python3
-"""Applies every seeded mutant to /repo in turn, runs the checks named for it, undoes it, and
-records the outcome in seeded/<id>/meta.json (detected_by / history)."""
-import json, os, subprocess, sys, time
+"""Runs every seeded change against the check of its own property (plus the extra checks named in
+EXTRA for round 1) and records the outcome in seeded/<id>/meta.json (detected_by / history).
+Each change is applied in a scratch worktree of /repo outside /repo and /verif (removed afterwards),
+the check runs with VERIF_REPO pointing there and its evidence goes to a scratch directory, so /repo,
+/verif/evidence and concurrent runs are left alone.  usage: mutant_matrix.py [-j N] [ids...]"""
+import concurrent.futures
+import json
+import os
+import shutil
+import subprocess
+import sys
+import tempfile
+import time
+
 V = "/verif"
 EXTRA = {"C01": ["C01", "C07"], "C17": ["C17", "C05"], "C12": ["C12", "C10"], "C10": ["C10", "C12"], "C11": ["C11", "C07"],
          "C04": ["C04", "C12"], "C09": ["C09", "C19"], "C20": ["C20", "C04"]}
-only = sys.argv[1:]
-for pid in sorted(os.listdir(V + "/seeded")):
-    if only and pid not in only:
-        continue
+args = sys.argv[1:]
+jobs = 3
+if args[:1] == ["-j"]:
+    jobs = int(args[1])
+    args = args[2:]
+only = args
+base = tempfile.mkdtemp(prefix="vmm")
+
+
+def one(pid):
     d = V + "/seeded/" + pid
     meta = json.load(open(d + "/meta.json"))
-    if subprocess.run(["git", "-C", "/repo", "diff", "--quiet"]).returncode != 0:
-        print("repo dirty"); sys.exit(2)
-    if subprocess.run(["git", "-C", "/repo", "apply", d + "/patch.diff"]).returncode != 0:
-        print(pid, "patch does not apply to the current tree"); meta["history"].append({"when": time.strftime("%F %T"), "result": "patch does not apply"}); json.dump(meta, open(d + "/meta.json", "w"), indent=1); continue
+    wt = os.path.join(base, pid)
+    out = []
+    p = subprocess.run(["git", "-C", "/repo", "worktree", "add", "--detach", wt, "HEAD"], capture_output=True, text=True)
+    if p.returncode != 0:
+        return pid, ["worktree failed: " + p.stderr[-200:]]
     try:
+        # uncommitted state of /repo is not copied: the matrix is about the committed tree + the seeded change
+        if subprocess.run(["git", "-C", wt, "apply", d + "/patch.diff"]).returncode != 0:
+            meta["history"].append({"when": time.strftime("%F %T"), "result": "patch does not apply"})
+            json.dump(meta, open(d + "/meta.json", "w"), indent=1)
+            return pid, ["patch does not apply to the current tree"]
         runs = []
-        for chk in EXTRA.get(pid, [meta["property"]]) if "-" not in pid else [meta["property"]]:
-            p = subprocess.run([V + "/bin/check", chk, "--tier", "quick"], cwd=V, capture_output=True, text=True, env=dict(os.environ, VERIF_SEED=os.environ.get("VERIF_SEED", "1")))
+        for chk in (EXTRA.get(pid, [meta["property"]]) if "-" not in pid else [meta["property"]]):
+            env = dict(os.environ, VERIF_REPO=wt, VERIF_SEED=os.environ.get("VERIF_SEED", "1"),
+                       VERIF_EVIDENCE_DIR=os.path.join(base, "evidence-" + pid))
+            p = subprocess.run([V + "/bin/check", chk, "--tier", "quick"], cwd=V, capture_output=True, text=True, env=env)
             first = next((l.strip() for l in p.stdout.splitlines() if l.startswith("  violation class")), "")
             runs.append({"check": chk, "exit": p.returncode, "first_class": first[:220]})
-            print(pid, chk, "rc=%d" % p.returncode, first[:150]); sys.stdout.flush()
+            out.append("%s %s rc=%d %s" % (pid, chk, p.returncode, first[:150]))
         meta["detected_by"] = [r["check"] for r in runs if r["exit"] == 1]
         meta["history"].append({"when": time.strftime("%F %T"), "runs": runs})
+        json.dump(meta, open(d + "/meta.json", "w"), indent=1)
     finally:
-        subprocess.run(["git", "-C", "/repo", "checkout", "--", "."])
-    json.dump(meta, open(d + "/meta.json", "w"), indent=1)
+        subprocess.run(["git", "-C", "/repo", "worktree", "remove", "--force", wt], capture_output=True)
+    return pid, out
+
+
+ids = [p for p in sorted(os.listdir(V + "/seeded")) if not only or p in only]
+try:
+    with concurrent.futures.ThreadPoolExecutor(jobs) as ex:
+        for pid, lines in ex.map(one, ids):
+            for ln in lines:
+                print(ln)
+            sys.stdout.flush()
+finally:
+    shutil.rmtree(base, ignore_errors=True)
+    subprocess.run(["git", "-C", "/repo", "worktree", "prune"], capture_output=True)
